@@ -63,6 +63,30 @@ inline std::shared_ptr<backend::crs<std::complex<double>, ptrdiff_t, ptrdiff_t>>
     return A;
 }
 
+// block matrix with entries of type T -> scalar matrix of T (same entry order), by the harness itself
+template <class T, int B>
+std::shared_ptr<backend::crs<T, ptrdiff_t, ptrdiff_t>> unblock(const backend::crs<static_matrix<T, B, B>, ptrdiff_t, ptrdiff_t> &A) {
+    auto S = std::make_shared<backend::crs<T, ptrdiff_t, ptrdiff_t>>();
+    S->set_size(A.nrows * B, A.ncols * B, true);
+    for (size_t i = 0; i < A.nrows; ++i) for (int r = 0; r < B; ++r) S->ptr[i * B + r + 1] = (A.ptr[i+1] - A.ptr[i]) * B;
+    S->set_nonzeros(S->scan_row_sizes());
+    for (size_t i = 0; i < A.nrows; ++i) for (int r = 0; r < B; ++r) { ptrdiff_t h = S->ptr[i * B + r];
+        for (ptrdiff_t p = A.ptr[i]; p < A.ptr[i+1]; ++p) for (int c = 0; c < B; ++c) { S->col[h] = A.col[p] * B + c; S->val[h] = A.val[p](r, c); ++h; } }
+    return S;
+}
+template <int B>
+std::shared_ptr<backend::crs<static_matrix<std::complex<double>,B,B>, ptrdiff_t, ptrdiff_t>> cblock_random(vr::rng &g, int n, int m, double dens) {
+    typedef static_matrix<std::complex<double>,B,B> V;
+    auto A = std::make_shared<backend::crs<V, ptrdiff_t, ptrdiff_t>>();
+    A->set_size(n, m, true);
+    std::vector<std::vector<int>> cols(n);
+    for (int i = 0; i < n; ++i) for (int j = 0; j < m; ++j) if (g.coin(dens)) cols[i].push_back(j);
+    for (int i = 0; i < n; ++i) A->ptr[i+1] = cols[i].size();
+    A->set_nonzeros(A->scan_row_sizes());
+    for (int i = 0; i < n; ++i) { ptrdiff_t h = A->ptr[i]; for (int c : cols[i]) { A->col[h] = c; V v; for (int r = 0; r < B; ++r) for (int q = 0; q < B; ++q) v(r,q) = std::complex<double>(g.range(-2, 2), g.range(-2, 2)); A->val[h] = v; ++h; } }
+    return A;
+}
+
 // ---------------------------------------------------------------- one case each
 static std::string J(const M &A, vr::obj &o, int shift = 0) { bool ex = true; std::string s = vr::crs_json(A, ex, shift); if (!ex) o.exact = false; return s; }
 
@@ -225,6 +249,26 @@ static void mode_random(uint64_t seed, int reps, int nmax) {
                 vr::obj o; o.str("k", "product").str("tag", "block2").i("algo", algo).b("sort", false).b("expanded", true);
                 o.raw("A", J(*expand<2>(*X), o)).raw("B", J(*expand<2>(*Y), o)).raw("out", J(*expand<2>(Z), o)); put(o);
             }
+            {   // 3x3 real blocks (odd block size) and 2x2 blocks of complex numbers (adjoint = conjugate transpose of the block)
+                auto X3 = block_random<3>(g, bn, bk, 0.4); auto Y3 = block_random<3>(g, bk, bm, 0.4);
+                auto X3T = backend::transpose(*X3);
+                { vr::obj o; o.str("k", "transpose").str("tag", "block3"); o.raw("A", J(*expand<3>(*X3), o)).raw("out", J(*expand<3>(*X3T), o)); put(o); }
+                for (int algo = 0; algo < 2; ++algo) {
+                    backend::crs<static_matrix<double,3,3>, ptrdiff_t, ptrdiff_t> Z;
+                    if (algo == 0) backend::spgemm_saad(*X3, *Y3, Z, false); else backend::spgemm_rmerge(*X3, *Y3, Z);
+                    vr::obj o; o.str("k", "product").str("tag", "block3").i("algo", algo).b("sort", false).b("expanded", true);
+                    o.raw("A", J(*expand<3>(*X3), o)).raw("B", J(*expand<3>(*Y3), o)).raw("out", J(*expand<3>(Z), o)); put(o);
+                }
+                auto XC = cblock_random<2>(g, bn, bk, 0.4); auto YC = cblock_random<2>(g, bk, bm, 0.4);
+                auto XCT = backend::transpose(*XC);
+                { vr::obj o; o.str("k", "transpose").str("tag", "cblock2"); o.raw("A", J(*expand(*unblock<std::complex<double>,2>(*XC)), o)).raw("out", J(*expand(*unblock<std::complex<double>,2>(*XCT)), o)); put(o); }
+                for (int algo = 0; algo < 2; ++algo) {
+                    backend::crs<static_matrix<std::complex<double>,2,2>, ptrdiff_t, ptrdiff_t> Z;
+                    if (algo == 0) backend::spgemm_saad(*XC, *YC, Z, false); else backend::spgemm_rmerge(*XC, *YC, Z);
+                    vr::obj o; o.str("k", "product").str("tag", "cblock2").i("algo", algo).b("sort", false).b("expanded", true);
+                    o.raw("A", J(*expand(*unblock<std::complex<double>,2>(*XC)), o)).raw("B", J(*expand(*unblock<std::complex<double>,2>(*YC)), o)).raw("out", J(*expand(*unblock<std::complex<double>,2>(Z)), o)); put(o);
+                }
+            }
             auto U = complex_random(g, bn, bk, 0.4); auto W = complex_random(g, bk, bm, 0.4);
             auto UT = backend::transpose(*U);
             { vr::obj o; o.str("k", "transpose").str("tag", "complex"); o.raw("A", J(*expand(*U), o)).raw("out", J(*expand(*UT), o)); put(o); }
@@ -254,7 +298,7 @@ static void mode_obs(uint64_t seed, int reps) {
         double sig  = Eigen::JacobiSVD<Eigen::MatrixXd>(E).singularValues()(0);
         double sigS = Eigen::JacobiSVD<Eigen::MatrixXd>(S).singularValues()(0);
         double g0 = backend::spectral_radius<false>(*A, 0), g1 = backend::spectral_radius<true>(*A, 0);
-        int it = g.range(1, 20);
+        int it = g.coin(0.4) ? 1 : g.range(2, 20);          // one iteration: the estimate is |b0.(A b0)| of the normalised start vector
         double p0 = backend::spectral_radius<false>(*A, it), p1 = backend::spectral_radius<true>(*A, it);
         const double Q = 1048576.0;
         vr::obj o; o.str("k", "specobs").str("tag", spd ? "spd" : "gen").i("n", n).i("iters", it);
